@@ -75,6 +75,8 @@ func MakeGenericType(genericTypeDefinition TypeDefinition, typeArguments []Type,
 // with names "T1", "T2", etc.
 func NormalizeGenericTypeParameters(t Type) Type {
 	var typeParameterMap map[*GenericTypeParameter]*GenericTypeParameter
+	// a definition referenced along many paths is rewritten once
+	rewrittenDefinitions := make(map[TypeDefinition]Node)
 	return Rewrite(t, func(self *Rewriter, node Node) Node {
 		switch node := node.(type) {
 		case *GenericTypeParameter:
@@ -100,7 +102,11 @@ func NormalizeGenericTypeParameters(t Type) Type {
 			return &rewritten
 		case *SimpleType:
 			defaultRewritten := self.DefaultRewrite(node)
-			rewrittenResolved := self.Rewrite(node.ResolvedDefinition)
+			rewrittenResolved, seen := rewrittenDefinitions[node.ResolvedDefinition]
+			if !seen {
+				rewrittenResolved = self.Rewrite(node.ResolvedDefinition)
+				rewrittenDefinitions[node.ResolvedDefinition] = rewrittenResolved
+			}
 			if defaultRewritten == node && rewrittenResolved == node.ResolvedDefinition {
 				return node
 			}
@@ -811,6 +817,7 @@ func TypeHasNullOption(node Type) bool {
 // Returns true if the type is generic (not concrete)
 func TypeContainsGenericTypeParameter(node Type) bool {
 	contains := false
+	visitedDefinitions := make(map[TypeDefinition]bool)
 	Visit(node, func(self Visitor, node Node) {
 		switch node := node.(type) {
 		case *GenericTypeParameter:
@@ -819,7 +826,11 @@ func TypeContainsGenericTypeParameter(node Type) bool {
 		case *NamedType:
 			self.Visit(node.Type)
 		case *SimpleType:
-			self.Visit(node.ResolvedDefinition)
+			// visit every referenced definition once, not once per path that leads to it
+			if !visitedDefinitions[node.ResolvedDefinition] {
+				visitedDefinitions[node.ResolvedDefinition] = true
+				self.Visit(node.ResolvedDefinition)
+			}
 		default:
 			self.VisitChildren(node)
 		}
